@@ -45,6 +45,20 @@ func (e *Engine) collectAllocTypes() {
 			}
 		}
 	}
+	defer func() {
+		// deterministic type ids: the query text must not depend on map iteration order
+		var names []string
+		for k := range e.allocTypes {
+			names = append(names, k)
+		}
+		for k := range e.allocArr {
+			names = append(names, k)
+		}
+		sort.Strings(names)
+		for _, n := range names {
+			e.typeIDByName(n)
+		}
+	}()
 	for g := range e.globalIDs {
 		if g.Pkg == nil || len(g.Pkg.Pkg.Path()) < len(repoMod) || g.Pkg.Pkg.Path()[:len(repoMod)] != repoMod {
 			continue
